@@ -159,5 +159,11 @@ package method_evaluator
 //@ # ---- C08: no false alarm for a union argument that is a sub-union of the parameter ----
 //@ func ti/eval/method_evaluator.checkArgType
 //@   inline 12 2
+//@   # C07: an argument of a definite (non-union, typed) class that differs from the definite class the
+//@   # parameter declares is reported: neither side a union / untyped / unknown / block, the type tags
+//@   # differ (for two objects: the classes differ)
+//@   ensures[C07] definedArgT != nil && argT != nil && old(argT.tType != base.BLOCK && argT.tType != base.UNTYPED && argT.tType != base.UNKNOWN && argT.tType != base.UNION && definedArgT.tType != base.UNTYPED && definedArgT.tType != base.UNION && definedArgT.tType != argT.tType) ==> !isnil(result)
+//@   # C07: a union argument none of whose variants has the parameter's definite type tag is reported
+//@   ensures[C07] definedArgT != nil && argT != nil && old(argT.tType == base.UNION && definedArgT.tType != base.UNTYPED && definedArgT.tType != base.UNION && forall(i, 0 <= i && i < len(argT.variants) ==> argT.variants[i].tType != base.UNTYPED && argT.variants[i].tType != definedArgT.tType)) ==> !isnil(result)
 //@   ensures[C08] definedArgT != nil && argT != nil && old(definedArgT.tType == base.UNION && argT.tType == base.UNION && variantTypesWithin(argT, definedArgT)) ==> isnil(result)
 //@   witness post:0.0#3 "c = true\nx = c ? 1 : \"a\"\ng = GPIO.new(x, 1)\n" expect "type mismatch"
